@@ -122,7 +122,8 @@ def extOfJson (j : J) : Ext :=
     inputFields := (objEntries j "input_fields").map fun e => (e.1, (e.2.asArr?.getD []).map extArgOfJson),
     members := (objEntries j "members").map fun e => (e.1, (e.2.asArr?.getD []).filterMap J.asStr?),
     values := (objEntries j "values").map fun e => (e.1, (e.2.asArr?.getD []).filterMap J.asStr?),
-    newDirs := (j.arrD "new_dirs").map fun d => (d.strD "name", (d.arrD "args").map extArgOfJson, strList d "locs") }
+    newDirs := (j.arrD "new_dirs").map fun d => (d.strD "name", (d.arrD "args").map extArgOfJson, strList d "locs"),
+    newIfaces := (j.arrD "new_types").filterMap fun t => if (strList t "implements").isEmpty then none else some (t.strD "name", strList t "implements") }
 
 def FUEL : Nat := 12
 
@@ -153,12 +154,17 @@ def runSteps (cfg : Cfg) : List J → Heap → List Schema → Except String (He
         match st.strD "op" with
         | "clone" => clone cfg FUEL s h
         | "transform" => transform cfg FUEL ((st.arrD "visitors").map visitorOfJson) s h
-        | "extend" => some (extend cfg (extOfJson (st.getD "ext")) s h)
+        | "extend" => some (extendO cfg (extOfJson (st.getD "ext")) s h)
         | "replace" => replaceStep cfg (strPairs st "entries") s h
+        -- `visitor.on_schema(ss[src])` for each visitor, IN PLACE on an existing schema of the list (no clone): the schema is
+        -- replaced in the list (Props/C14_inplace.lean: `ReachI.inplace`)
+        | "inplace_on" => transformFrom cfg FUEL ((st.arrD "visitors").map visitorOfJson) (h, s)
         | _ => none
       match r with
       | none => .error "out-of-fuel-or-bad-op"
-      | some (h', s') => runSteps cfg rest h' (if st.boolD "rejected" then ss else ss ++ [s'])
+      | some (h', s') =>
+        if st.strD "op" == "inplace_on" then runSteps cfg rest h' (ss.set (st.natD "src") s')
+        else runSteps cfg rest h' (if st.boolD "rejected" then ss else ss ++ [s'])
 
 /-! ### registries -/
 
